@@ -120,6 +120,15 @@ Theorem C01_oracle_sound : forall c : case, corr_b c = true -> prop_b c = true.
 Proof. exact Proofs.CorrC01.oracle_no_stricter_than_model. Qed.
 Print Assumptions C01_oracle_sound.
 
+(** Persist / restore (serialise the tracked orders, deserialise them, continue) is a no-op of the
+    model: runs are invariant under inserting such steps anywhere.  The correspondence check
+    performs real serde_json round trips of [Orders] in the middle of histories and requires them
+    to be the identity on the implementation too. *)
+Theorem C01_persist_invariant : forall (xs : list xop) (s : orders),
+  fold_left xstep xs s = run (ops_of xs) s.
+Proof. exact Proofs.CorrC01.persist_invariant. Qed.
+Print Assumptions C01_persist_invariant.
+
 (** Non-vacuity: a 9-step history on two ids — open sent, open (t=2, partly filled), cancel sent,
     stale open (t=1, ignored), newer open (t=3), cancel failed (restores the t=3 open state),
     a second id reported open, then the first id reported open with nothing left (t=4) — ends
